@@ -283,6 +283,51 @@ fn any_ascii_content() -> Content
     Content { bytes, len }
 }
 
+/// `str::chars().count()` of core is a word-at-a-time loop with alignment arithmetic that CBMC cannot bound; same
+/// function as a plain loop (a character starts at every byte that is not a continuation byte)
+fn stub_count_chars(s: &str) -> usize
+{
+    let b = s.as_bytes();
+    let mut n = 0;
+    let mut i = 0;
+    while i < b.len()
+    {
+        if b[i] & 0xc0 != 0x80
+        {
+            n += 1;
+        }
+        i += 1;
+    }
+    n
+}
+
+/// Where the two-byte character of `any_utf8_content` starts (usize::MAX: none).
+static mut WIDE_AT: usize = usize::MAX;
+
+/// ASCII content with one two-byte UTF-8 character (U+00E9) at a symbolic place: byte offsets and character
+/// counts differ from there on.
+fn any_utf8_content() -> Content
+{
+    let mut c = any_ascii_content();
+    let at: usize = sym_usize();
+    kani::assume(at < NBYTES && at + 2 <= c.len);
+    let mut i = 0;
+    while i < NBYTES
+    {
+        if i == at
+        {
+            c.bytes[i] = 0xc3;
+        }
+        if i == at + 1
+        {
+            c.bytes[i] = 0xa9;
+        }
+        i += 1;
+    }
+    unsafe { WIDE_AT = at };
+    c
+}
+
 fn count_needing(es: &[E; NENT]) -> usize
 {
     let mut n = 0;
@@ -483,6 +528,20 @@ fn u_insert_content()
     insert_body(false, true);
 }
 
+/// As u_insert_content, with a two-byte character somewhere in the file (byte offsets != character counts).
+#[kani::proof]
+#[kani::stub(std::alloc::dealloc, stub_dealloc)]
+#[kani::unwind(10)]
+#[kani::stub(crate::parser::code_parser::LogRefEntry::insertable_reference_string, stub_token)]
+#[kani::stub(AsyncTempFile::new, stub_tempfile_new)]
+#[kani::stub(std::fs::remove_file, stub_remove_file)]
+#[kani::stub(core::str::count::count_chars, stub_count_chars)]
+fn u_insert_utf8()
+{
+    log::set_max_level(log::LevelFilter::Off);
+    insert_body_with(false, true, true);
+}
+
 /// Every subset of failing operations and drain points; symbolic entries and counter; the file
 /// content is the fixed string of distinct bytes "abcd.." (content bytes are never inspected by
 /// the code under test; u_insert_content covers arbitrary bytes).
@@ -500,7 +559,16 @@ fn u_insert_faults()
 
 fn insert_body(faults: bool, symbolic_content: bool)
 {
-    let c = if symbolic_content
+    insert_body_with(faults, symbolic_content, false)
+}
+
+fn insert_body_with(faults: bool, symbolic_content: bool, wide: bool)
+{
+    let c = if wide
+    {
+        any_utf8_content()
+    }
+    else if symbolic_content
     {
         any_ascii_content()
     }
@@ -517,6 +585,16 @@ fn insert_body(faults: bool, symbolic_content: bool)
     };
     let (content, bytes, len) = (c.as_str(), c.bytes, c.len);
     let (es, entries) = any_entries(len);
+    if wide
+    {
+        // the parser reports character boundaries (Engine S: c05/c03 positions)
+        let mut k = 0;
+        while k < NENT
+        {
+            kani::assume(es[k].pos != unsafe { WIDE_AT } + 1);
+            k += 1;
+        }
+    }
     let start: u32 = sym_u32();
     kani::assume(start >= 1);
     let counter = Arc::new(AtomicU32::new(start));
@@ -593,6 +671,18 @@ fn insert_body(faults: bool, symbolic_content: bool)
         {
             // C07: failure => the file is still one of the two legal contents
             assert!(fsm::SRC_STATE[0] != fsm::CLOBBERED);
+            // C05: what a file contributes to the printed count is what it contributed to the tree
+            let in_tree = if fsm::SRC_STATE[0] == fsm::REPLACED { need } else { 0 };
+            if fsm::RENAMES_FAILED > 0
+            {
+                assert!(r.num_inserted_references == in_tree,
+                    "C05: [rename-failure-count] a file whose rename failed is counted with its insertions although none of them is in the tree");
+            }
+            else
+            {
+                assert!(r.num_inserted_references == in_tree,
+                    "C05: a file that could not be updated adds nothing to the count of inserted references");
+            }
         }
     }
     std::mem::forget(entries);
